@@ -12,6 +12,7 @@ import (
 )
 
 type Effect struct {
+	Except string         // with All: every array except those whose key starts with this prefix
 	All  bool            // may write anything
 	Ext  bool            // may write memory owned by external (non-falco) types
 	Keys map[string]bool // heap-key prefixes: "F:<owner>.<field>:", "E:<elem>:", "C:<type>:", "MD:<k>:<v>", "MV:<k>:<v>:", "G:<name>:"
@@ -19,7 +20,13 @@ type Effect struct {
 
 func (a *Effect) add(b *Effect) {
 	if b.All {
-		a.All = true
+		switch {
+		case a.All && a.Except != b.Except:
+			a.Except = ""
+		case !a.All:
+			a.All = true
+			a.Except = b.Except
+		}
 	}
 	if b.Ext {
 		a.Ext = true
@@ -31,7 +38,14 @@ func (a *Effect) add(b *Effect) {
 
 func (a *Effect) pure() bool { return !a.All && !a.Ext && len(a.Keys) == 0 }
 
+func (a *Effect) setAll() { a.All = true; a.Except = "" }
+
+func (a *Effect) full() bool { return a.All && a.Except == "" }
+
 func (a *Effect) String() string {
+	if a.All && a.Except != "" {
+		return "writes:anything-but-" + a.Except + "*"
+	}
 	if a.All {
 		return "writes:anything"
 	}
@@ -49,6 +63,9 @@ func (a *Effect) String() string {
 func isFalcoTypeName(s string) bool {
 	// typeName strips the module prefix: falco types look like "interpreter/value.Integer" or "ast.Meta" or "main.Runner"
 	s = strings.TrimLeft(s, "*[]")
+	if strings.HasPrefix(s, "map[") {
+		return strings.Contains(s, "ast.") || strings.Contains(s, "/")
+	}
 	if i := strings.Index(s, "."); i >= 0 {
 		pkg := s[:i]
 		switch strings.SplitN(pkg, "/", 2)[0] {
@@ -65,8 +82,12 @@ func keyIsExternal(key string) bool {
 	case strings.HasPrefix(key, "F:"), strings.HasPrefix(key, "C:"), strings.HasPrefix(key, "E:"):
 		return !isFalcoTypeName(key[2:])
 	case strings.HasPrefix(key, "MD:"), strings.HasPrefix(key, "MV:"):
-		rest := key[3:]
-		return !strings.Contains(rest, "/") && !isFalcoTypeName(rest) && !strings.Contains(rest, ":*ast.") && !strings.Contains(rest, "ast.")
+		for _, part := range strings.Split(key[3:], ":") {
+			if isFalcoTypeName(part) {
+				return false
+			}
+		}
+		return true
 	}
 	return false
 }
@@ -99,14 +120,14 @@ func (P *Program) computeEffect(fn *ssa.Function) *Effect {
 	eff := &Effect{Keys: map[string]bool{}}
 	if fn.Blocks == nil {
 		if inFalco(fn) {
-			eff.All = true
+			eff.setAll()
 		} else {
 			switch P.externEffect(fn, nil) {
 			case "pure":
 			case "shallow":
 				eff.Ext = true
 			default:
-				eff.All = true
+				eff.setAll()
 			}
 		}
 		return eff
@@ -117,7 +138,7 @@ func (P *Program) computeEffect(fn *ssa.Function) *Effect {
 		case "shallow":
 			eff.Ext = true
 		default:
-			eff.All = true
+			eff.setAll()
 		}
 		return eff
 	}
@@ -137,14 +158,14 @@ func (P *Program) computeEffect(fn *ssa.Function) *Effect {
 					eff.Keys["MD:"+k+":"+v] = true
 					eff.Keys["MV:"+k+":"+v+":"] = true
 				} else {
-					eff.All = true
+					eff.setAll()
 				}
 			case *ssa.Send, *ssa.Go, *ssa.Select:
-				eff.All = true
+				eff.setAll()
 			case ssa.CallInstruction:
 				P.callEffect(eff, x.Common(), fn)
 			}
-			if eff.All {
+			if eff.full() {
 				return eff
 			}
 		}
@@ -189,10 +210,10 @@ func (P *Program) storeEffect(eff *Effect, addr ssa.Value, vt types.Type) {
 				}
 				P.elemStoreEffect(eff, at.Elem())
 			} else {
-				eff.All = true
+				eff.setAll()
 			}
 		default:
-			eff.All = true
+			eff.setAll()
 		}
 	case *ssa.Global:
 		eff.Keys["G:"+strings.TrimPrefix(a.Pkg.Pkg.Path(), falcoMod+"/")+"."+a.Name()+":"] = true
@@ -206,14 +227,14 @@ func (P *Program) storeEffect(eff *Effect, addr ssa.Value, vt types.Type) {
 			}
 			return
 		}
-		eff.All = true
+		eff.setAll()
 	}
 }
 
 func (P *Program) structStoreEffect(eff *Effect, t types.Type) {
 	s, ok := isStruct(t)
 	if !ok {
-		eff.All = true
+		eff.setAll()
 		return
 	}
 	for i := 0; i < s.NumFields(); i++ {
@@ -237,20 +258,20 @@ func (P *Program) callEffect(eff *Effect, c *ssa.CallCommon, caller *ssa.Functio
 			if st, ok := c.Args[0].Type().Underlying().(*types.Slice); ok {
 				P.elemStoreEffect(eff, st.Elem())
 			} else {
-				eff.All = true
+				eff.setAll()
 			}
 		case "copy":
 			if st, ok := c.Args[0].Type().Underlying().(*types.Slice); ok {
 				P.elemStoreEffect(eff, st.Elem())
 			} else {
-				eff.All = true
+				eff.setAll()
 			}
 		case "delete":
 			if mt, ok := c.Args[0].Type().Underlying().(*types.Map); ok {
 				eff.Keys["MD:"+typeName(mt.Key())+":"+typeName(mt.Elem())] = true
 			}
 		case "clear":
-			eff.All = true
+			eff.setAll()
 		}
 		return
 	}
@@ -260,13 +281,13 @@ func (P *Program) callEffect(eff *Effect, c *ssa.CallCommon, caller *ssa.Functio
 		}
 		impls := P.implementers(c.Value.Type())
 		if len(impls) == 0 || len(impls) > 40 || !P.closedWorld(c.Value.Type()) {
-			eff.All = true
+			eff.setAll()
 			return
 		}
 		for _, t := range impls {
 			m := P.prog.LookupMethod(t, c.Method.Pkg(), c.Method.Name())
 			if m == nil {
-				eff.All = true
+				eff.setAll()
 				return
 			}
 			eff.add(P.effectOf(m))
@@ -277,7 +298,7 @@ func (P *Program) callEffect(eff *Effect, c *ssa.CallCommon, caller *ssa.Functio
 	if callee == nil {
 		// closure value created in this function and called directly is handled by StaticCallee;
 		// anything else is unknown
-		eff.All = true
+		eff.setAll()
 		return
 	}
 	if con := P.contractFor(callee); con != nil && !con.Extern {
@@ -285,15 +306,33 @@ func (P *Program) callEffect(eff *Effect, c *ssa.CallCommon, caller *ssa.Functio
 			return
 		}
 		if con.has("assigns") {
-			// declared frame: translate the simple forms; otherwise fall back to inference
+			if ce := P.contractEffect(callee, con); ce != nil {
+				eff.add(ce)
+				return
+			}
 		}
 	}
 	eff.add(P.effectOf(callee))
 }
 
 // havocEffect applies an inferred write effect to a state.
+func (eff *Effect) hits(key string) bool {
+	if eff.All && (eff.Except == "" || !strings.HasPrefix(key, eff.Except)) {
+		return true
+	}
+	if eff.Ext && keyIsExternal(key) {
+		return true
+	}
+	for k := range eff.Keys {
+		if strings.HasPrefix(key, k) {
+			return true
+		}
+	}
+	return false
+}
+
 func (e *Engine) havocEffect(st *State, eff *Effect, why string) {
-	if eff.All {
+	if eff.All && eff.Except == "" {
 		e.havocHeap(st, why)
 		return
 	}
@@ -303,16 +342,10 @@ func (e *Engine) havocEffect(st *State, eff *Effect, why string) {
 	e.nfresh++
 	ep := e.nfresh
 	for _, key := range sortedKeys(st.heap) {
-		hit := eff.Ext && keyIsExternal(key)
-		if !hit {
-			for k := range eff.Keys {
-				if strings.HasPrefix(key, k) {
-					hit = true
-					break
-				}
-			}
+		if !eff.hits(key) {
+			continue
 		}
-		if !hit {
+		if strings.HasPrefix(key, "G:") && e.P.immutableGlobal(key) {
 			continue
 		}
 		srt := e.keySort[key]
@@ -364,4 +397,84 @@ func fmtInt(i int) string {
 		b = append([]byte{'-'}, b...)
 	}
 	return string(b)
+}
+
+
+// contractEffect translates a declared `assigns` frame into an Effect (nil when a location form
+// is not understood).
+func (P *Program) contractEffect(fn *ssa.Function, con *Contract) *Effect {
+	eff := &Effect{Keys: map[string]bool{}}
+	ptype := map[string]types.Type{}
+	for _, p := range fn.Params {
+		ptype[p.Name()] = p.Type()
+	}
+	for _, c := range con.get("assigns") {
+		for _, loc := range c.Locs {
+			switch x := loc.(type) {
+			case SIdent:
+				switch x.Name {
+				case "nothing", "fresh":
+				case "external":
+					eff.Ext = true
+				case "foreign":
+					eff.All = true // (Except set below)
+					if fn.Pkg != nil {
+						eff.Except = "F:" + strings.TrimPrefix(fn.Pkg.Pkg.Path(), falcoMod+"/") + "."
+					}
+				case "heap", "everything":
+					eff.setAll()
+					eff.Except = ""
+					return eff
+				default:
+					return nil
+				}
+			case SSel:
+				id, ok := x.X.(SIdent)
+				if !ok {
+					return nil
+				}
+				t, ok := ptype[id.Name]
+				if !ok {
+					return nil
+				}
+				pt, ok := t.Underlying().(*types.Pointer)
+				if !ok {
+					if types.IsInterface(t) && (x.Name == "all" || x.Name == "_") {
+						for _, it := range P.implementers(t) {
+							if ip, ok := it.Underlying().(*types.Pointer); ok {
+								P.structStoreEffect(eff, ip.Elem())
+							}
+						}
+						continue
+					}
+					return nil
+				}
+				if x.Name == "all" || x.Name == "_" {
+					P.structStoreEffect(eff, pt.Elem())
+					continue
+				}
+				s, ok := isStruct(pt.Elem())
+				if !ok {
+					return nil
+				}
+				found := false
+				for i := 0; i < s.NumFields(); i++ {
+					if s.Field(i).Name() == x.Name {
+						found = true
+						if _, nested := isStruct(s.Field(i).Type()); nested {
+							P.structStoreEffect(eff, s.Field(i).Type())
+						} else {
+							eff.Keys["F:"+typeName(pt.Elem())+"."+x.Name+":"] = true
+						}
+					}
+				}
+				if !found {
+					return nil
+				}
+			default:
+				return nil
+			}
+		}
+	}
+	return eff
 }
